@@ -39,6 +39,19 @@ Theorem C07_history_contained : forall fs ops root,
 Proof. exact history_contained. Qed.
 Print Assumptions C07_history_contained.
 
+(* a plain relative path that names nothing below the root is answered 404; what is served as a file is a file of the
+   file system with exactly its content (nothing the process could reach under that name by other means) *)
+Theorem C07_unreachable_404 : forall fs root path,
+  ~ In "%"%char path -> is_abs path = false ->
+  walk fs [] true (clean (abs_segs root) ++ segs path) = None ->
+  fst (decide fs root path) = NotFound.
+Proof. exact unreachable_404. Qed.
+Print Assumptions C07_unreachable_404.
+Theorem C07_served_file_exists : forall fs root path p c,
+  fst (decide fs root path) = ServeFile p c -> fs_file fs p = Some c.
+Proof. exact served_file_exists. Qed.
+Print Assumptions C07_served_file_exists.
+
 Example C07_nonvacuous :
   let fs := [ {| fe_path := [BASE; B "SECRET"]; fe_dir := false; fe_content := B "s" |};
               {| fe_path := [BASE; B "root"; B "a.txt"]; fe_dir := false; fe_content := B "0123" |} ] in
